@@ -9,7 +9,6 @@ import (
 	"encoding/hex"
 	"encoding/json"
 	"fmt"
-	"net"
 	"net/http"
 	"net/http/httptest"
 	"path"
@@ -110,10 +109,10 @@ func fwdServer() (string, string) {
 			}
 		}))
 		fwdURL = srv.URL
-		// a port that was open and is closed again
-		ln, _ := net.Listen("tcp", "127.0.0.1:0")
-		fwdDead = "http://" + ln.Addr().String()
-		_ = ln.Close()
+		// a port nothing listens on. Not "a port that was open a moment ago": with many test processes
+		// on the machine such a port is soon somebody else's listener. Port 1 is below the ephemeral
+		// range and unused in this environment.
+		fwdDead = "http://127.0.0.1:1"
 	})
 	return fwdURL, fwdDead
 }
